@@ -26,7 +26,7 @@ static struct {
 	uint64_t last_handler_end;
 	int fd_closed;
 	int sib_events, caw_late_starts, caw_returned_while_running, raised;
-	int done, nthreads;
+	int done, nthreads, caw_second;   // caw_second: a second thread races the cancel_and_wait with 1 a plain cancel, 2 another cancel_and_wait
 	int activated;
 	sim_event handler_seen;
 	char key;
@@ -136,7 +136,7 @@ static void *canceller_thread(void *arg) {
 	else {
 		// wait for some handler invocations (or a while), then cancel
 		if (C.cancel_after && !second) sim_event_wait(&C.handler_seen, 2 * MSEC);
-		sim_sleep_ns((uint64_t)((RC.seed >> 9) % 150) * USEC + (second ? 30 * USEC : 0));
+		sim_sleep_ns((uint64_t)((RC.seed >> 9) % 150) * USEC + (second ? (C.cmode == CM_AND_WAIT ? (RC.seed >> 20) % 40 : 30) * USEC : 0));
 		if (C.cmode == CM_FROM_TARGET_ITEM) dispatch_async_f(C.tq, NULL, target_item_cancel);
 		else if (C.cmode == CM_OTHER_THREAD || C.cmode == CM_TWICE) {
 			// in a fifth of the runs the source is suspended while it is cancelled and resumed afterwards
@@ -144,17 +144,19 @@ static void *canceller_thread(void *arg) {
 			do_cancel(second ? "second thread" : "other thread");
 			if (C.susp_cancel && !second) { sim_point(); h_log("resume"); dispatch_resume(C.ds); }
 		}
+		else if (C.cmode == CM_AND_WAIT && second && C.caw_second == 1) do_cancel("second thread (plain cancel racing the cancel_and_wait)");
 		else if (C.cmode == CM_AND_WAIT) {
-			C.cancel_call = h_stamp();
-			h_log("cancel_and_wait");
+			if (!C.cancel_call) C.cancel_call = h_stamp();
+			h_log("cancel_and_wait%s", second ? " (second thread)" : "");
 			dispatch_source_cancel_and_wait(C.ds);
-			C.cancel_ret = C.caw_ret = h_stamp();
-			h_log("cancel_and_wait returned");
+			{ uint64_t r = h_stamp(); if (!C.cancel_ret) C.cancel_ret = r; if (!C.caw_ret) C.caw_ret = r; }
+			h_log("cancel_and_wait returned%s", second ? " (second thread)" : "");
 			if (C.handler_running) C.caw_returned_while_running++;   // observation only: the property does not promise the wait
 			if (C.stype == ST_READ || C.stype == ST_WRITE) {
 				uint32_t reg = sim_epoll_registered(C.mon_fd), dir = C.stype == ST_READ ? EPOLLIN : EPOLLOUT;
-				if (reg & dir) h_viol("still-monitored", "the descriptor is still registered with epoll after dispatch_source_cancel_and_wait returned");
-				if (!C.sibling) { close(C.mon_fd); C.fd_closed = 1; }
+				// (once the other racing cancel_and_wait has returned and closed the descriptor, its number may belong to somebody else)
+				if (!C.fd_closed && (reg & dir)) h_viol("still-monitored", "the descriptor is still registered with epoll after dispatch_source_cancel_and_wait returned");
+				if (!C.sibling && !C.fd_closed) { close(C.mon_fd); C.fd_closed = 1; }
 			}
 			if (!dispatch_source_testcancel(C.ds)) h_viol("testcancel", "testcancel is 0 after cancel_and_wait");
 		}
@@ -171,15 +173,17 @@ static bool cancel_done(void *c) {
 }
 static void c16_run(void) {
 	memset(&C, 0, sizeof C);
-	C.stype = (int)g_n(ST_N); C.cmode = (int)g_n(CM_N);
+	C.stype = (int)g_n(ST_N); C.cmode = (int)g_n(CM_N + 1); if (C.cmode >= CM_N) C.cmode = CM_AND_WAIT;   // (cancel_and_wait has the most variants: twice the share)
 	C.tqkind = C.cmode == CM_FROM_TARGET_ITEM ? 0 : (int)g_n(3);
 	C.use_socket = g_chance(1, 2); C.peer_closes = g_chance(1, 2) ? g_range(1, 10) : 0;
 	C.cancel_after = g_range(0, 3);
 	C.susp_cancel = g_chance(1, 5);
+	C.caw_second = (C.cmode == CM_AND_WAIT && g_chance(1, 2)) ? 1 + (int)g_n(2) : 0;
 	C.sibling = ((C.stype == ST_READ || C.stype == ST_WRITE) && C.use_socket && g_chance(1, 3)) || (C.stype == ST_SIGNAL && g_chance(1, 3));
 	h_sample("%s source on a %s queue%s; %s after >= %d handler invocation(s)%s%s%s\n", stn[C.stype], C.tqkind == 0 ? "serial" : C.tqkind == 1 ? "concurrent" : "global",
 		(C.stype == ST_READ || C.stype == ST_WRITE) ? (C.use_socket ? " (socketpair)" : " (pipe)") : "", cmn[C.cmode], C.cancel_after, (C.peer_closes && (C.stype == ST_READ || C.stype == ST_WRITE)) ? "; the peer closes its end during the run" : "",
 		(C.susp_cancel && (C.cmode == CM_OTHER_THREAD || C.cmode == CM_TWICE)) ? "; suspended while it is cancelled" : "", C.sibling ? (C.stype == ST_SIGNAL ? "; a second source monitors the same signal" : "; a second source monitors the other direction of the same descriptor") : "");
+	if (C.caw_second) h_sample("a second thread races it with %s\n", C.caw_second == 1 ? "dispatch_source_cancel" : "another dispatch_source_cancel_and_wait");
 	h_announce();
 	C.tq = C.tqkind == 0 ? dispatch_queue_create("c16-serial", NULL) : C.tqkind == 1 ? dispatch_queue_create("c16-conc", DISPATCH_QUEUE_CONCURRENT) : dispatch_get_global_queue(0, 0);
 	if (C.tqkind != 2) dispatch_queue_set_specific(C.tq, &C.key, &C.key, NULL);
@@ -218,7 +222,7 @@ static void c16_run(void) {
 	sim_thread *th[4]; int n = 0;
 	th[n++] = sim_spawn(event_source_thread, NULL, "events");
 	if (C.cmode != CM_FROM_HANDLER && C.cmode != CM_FROM_REGISTRATION) th[n++] = sim_spawn(canceller_thread, (void *)0, "canceller");
-	if (C.cmode == CM_TWICE) th[n++] = sim_spawn(canceller_thread, (void *)1, "canceller2");
+	if (C.cmode == CM_TWICE || C.caw_second) th[n++] = sim_spawn(canceller_thread, (void *)1, "canceller2");
 	C.nthreads = n;
 	h_end_fault_phase(th, n, 5 * NSEC);
 	if (C.cmode == CM_FROM_HANDLER && !C.cancel_call) {
